@@ -100,6 +100,7 @@ def verify_case(con: C.Contract, case: C.Case, timeout_ms=10000) -> CaseReport:
         args2 = [s.make(ctx, env) for s in case.args]
         kw2 = {k: s.make(ctx, env) for k, s in case.kwargs.items()}
         it = I.Interp(ctx, target_ids={id(fn)})
+        it.case_env = env
         for k, v in getattr(case, "interp_flags", {}).items():
             setattr(it, k, v)
         ctx.arith_hints = bool(getattr(case, "interp_flags", {}).get("arith_hints", False))
